@@ -3,7 +3,11 @@ from collections.abc import Callable
 from typing import Any, Optional, Type
 
 from mashumaro.core.meta.code.builder import CodeBuilder
-from mashumaro.core.meta.helpers import is_optional, is_type_var_any
+from mashumaro.core.meta.helpers import (
+    is_optional,
+    is_type_var_any,
+    strip_type_wrappers,
+)
 from mashumaro.core.meta.types.common import (
     AttrsHolder,
     FieldContext,
@@ -37,7 +41,8 @@ class CodecCodeBuilder(CodeBuilder):
                 shape_type in (Any, type(None), None)
                 or is_type_var_any(self.get_real_type("", shape_type))
                 or is_optional(
-                    shape_type, self.get_field_resolved_type_params("")
+                    strip_type_wrappers(shape_type),
+                    self.get_field_resolved_type_params(""),
                 )
             )
             unpacked_value = UnpackerRegistry.get(
@@ -73,7 +78,8 @@ class CodecCodeBuilder(CodeBuilder):
                 shape_type in (Any, type(None), None)
                 or is_type_var_any(self.get_real_type("", shape_type))
                 or is_optional(
-                    shape_type, self.get_field_resolved_type_params("")
+                    strip_type_wrappers(shape_type),
+                    self.get_field_resolved_type_params(""),
                 )
             )
             packed_value = PackerRegistry.get(
